@@ -77,7 +77,7 @@ def shape_name(c):
 def sig_of(m):
     c = m.get("cmd") or {}
     return {"mkind": m["kind"], "cfg": m.get("cfg"), "proto": m.get("proto"), "port": m.get("port"),
-            "op": c.get("op"), "l1": (m.get("cfg") or "//").split("/")[2] if m.get("cfg") else None,
+            "op": c.get("op"), "l1": ((m.get("cfg") or "") + "///").split("/")[2] or (m.get("cfg") or "").split("/")[-1],
             "ttlclass": ttl_class(c.get("t", 0))}
 
 
